@@ -93,7 +93,7 @@ var loopStateConfirmed = map[string]map[string]string{
 	"json.(decoder).decodeFromStringToInt": {"u": "digits with leading zeroes removed, built up across the loop"},
 	"json.(encoder).encodeString":          {"b": "output buffer", "i": "start of the not yet flushed segment"},
 	"json.(encoder).encodeStruct":          {"b": "output buffer", "n": "number of members written so far (decides the comma)"},
-	"json.appendCompactEscapeHTML":         {"dst": "output buffer", "escape": "backslash state of the scanner", "inString": "string state of the scanner", "start": "start of the not yet flushed segment"},
+	"json.appendCompact":                   {"dst": "output buffer", "escape": "backslash state of the scanner", "inString": "string state of the scanner", "start": "start of the not yet flushed segment"},
 	"json.appendStructFields":              {"embedded": "embedded fields collected so far, promoted after the loop"},
 	"json.appendToLower":                   {"b": "output buffer", "i": "start of the not yet copied segment"},
 	"json.fmtFrac":                         {"w": "write position, moves right to left"},
